@@ -6,6 +6,7 @@ Chemical formula parser.
 from __future__ import division, print_function
 
 from copy import copy
+from decimal import Decimal
 from math import pi, sqrt
 
 # Requires that the pyparsing module is installed.
@@ -980,16 +981,26 @@ def _str_atoms(seq):
                 value = str(abs(fragment.charge)) if abs(fragment.charge) > 1 else ''
                 ret += '{'+value+sign+'}'
             if count != 1:
-                ret += "%g"%count
+                ret += _str_count(count)
         else:
             if count == 1:
                 piece = _str_atoms(fragment)
             else:
-                piece = "(%s)%g"%(_str_atoms(fragment), count)
+                piece = "(%s)%s"%(_str_atoms(fragment), _str_count(count))
             #ret = ret+" "+piece if ret else piece
             ret += piece
 
     return ret
+
+def _str_count(count):
+    """
+    Convert count to string with six significant digits.  The formula grammar
+    has no exponent form, so 1e+06 is written as 1000000.
+    """
+    text = "%g"%count
+    if 'e' in text:
+        text = format(Decimal(text), 'f')
+    return text
 
 def _is_string_like(val):
     """Returns True if val acts like a string"""
